@@ -326,7 +326,7 @@ class VM:
         fr.bb, fr.i = bb, 0
 
     def exec_stmt(self, m, fr, s):
-        if s.startswith(('StorageLive', 'StorageDead', 'nop', 'FakeRead', 'PlaceMention', 'AscribeUserType', 'Retag', 'Coverage')):
+        if s.startswith(('StorageLive', 'StorageDead', 'nop', 'FakeRead', 'PlaceMention', 'AscribeUserType', 'Retag', 'Coverage', 'ConstEvalCounter')):
             return None
         mm = re.match(r'discriminant\((.+)\) = (\d+)$', s)
         if mm:
@@ -656,7 +656,7 @@ class VM:
         m = re.match(r'(\w[\w:<>, ]*)::(\w+)$', c)
         if m:
             return Enum(m.group(1).split('::')[-1], m.group(2))
-        pm = re.search(r'::(promoted\[\d+\])$', c)
+        pm = re.search(r'::(promoted\[\d+\]|[A-Z][A-Z0-9_]*)$', c)
         if pm and fr is not None:
             name = re.sub(r'@@\d+$', '', fr.func.name) + '::' + pm.group(1)
             if name in getattr(self.prog, 'consts', {}):
